@@ -1,5 +1,7 @@
 (* C15 -- property theorems only: pinned statements, each closed by `exact`. *)
-From V Require Import Base.Word C15.GenArith C15.LeafSpecs C15.BigIntModel C15.BigIntProofs.
+From V Require Import Base.Word C15.GenArith C15.LeafSpecs C15.BigIntModel C15.BigIntProofs
+  C15.ShiftProofs C15.MulProofs C15.BitsProofs C15.RecodeProofs C15.ConstProofs
+  C15.DecimalProofs C15.BitwiseProofs C15.MiscProofs.
 
 (* leaf arithmetic, about the definitions regenerated from arithmetic.rs *)
 Theorem C15_adc : forall a b c, u64 a -> u64 b -> u64 c ->
@@ -39,3 +41,254 @@ Proof. exact is_zero_spec. Qed.
 Example C15_add_example :
   add_with_carry [W64 - 1; W64 - 1] [1; 0] = ([0; 0], true).
 Proof. vm_compute. reflexivity. Qed.
+
+(* ---------- mul2 / div2 / shifts (ShiftProofs.v) ---------- *)
+Theorem C15_mul2 : forall a, wf a ->
+  let '(r, c) := mul2 a in
+  wf r /\ length r = length a /\ val r + Wn (length a) * Z.b2z c = 2 * val a.
+Proof. exact mul2_spec. Qed.
+Theorem C15_mul2_mod : forall a, wf a ->
+  val (fst (mul2 a)) = (2 * val a) mod Wn (length a) /\
+  snd (mul2 a) = (Wn (length a) <=? 2 * val a).
+Proof. exact mul2_mod. Qed.
+Theorem C15_div2 : forall a, wf a ->
+  wf (div2 a) /\ length (div2 a) = length a /\ val (div2 a) = val a / 2.
+Proof. exact div2_spec. Qed.
+(* shl is the model of both `<<`/`<<=` and the deprecated muln; shr of `>>`/`>>=` and divn *)
+Theorem C15_shl : forall a n, wf a -> 0 <= n ->
+  wf (shl a n) /\ length (shl a n) = length a /\
+  val (shl a n) = (val a * 2 ^ n) mod Wn (length a).
+Proof. exact shl_spec. Qed.
+Theorem C15_shl_ge_width : forall a n, wf a -> 64 * Z.of_nat (length a) <= n -> val (shl a n) = 0.
+Proof. exact shl_ge_width. Qed.
+Theorem C15_shr : forall a n, wf a -> 0 <= n ->
+  wf (shr a n) /\ length (shr a n) = length a /\ val (shr a n) = val a / 2 ^ n.
+Proof. exact shr_spec. Qed.
+
+(* ---------- multiplication (MulProofs.v) ---------- *)
+Theorem C15_mac_row : forall ys acc x c, wf ys -> wf acc -> u64 x -> u64 c ->
+  (length ys <= length acc)%nat ->
+  let '(row, cf) := mac_row acc x ys c in
+  wf row /\ length row = length ys /\ u64 cf /\
+  val row + Wn (length ys) * cf = val (firstn (length ys) acc) + x * val ys + c.
+Proof. exact mac_row_spec. Qed.
+Theorem C15_mul : forall a b, wf a -> wf b -> length a = length b ->
+  let '(lo, hi) := mul a b in
+  wf lo /\ wf hi /\ length lo = length a /\ length hi = length a /\
+  val lo + Wn (length a) * val hi = val a * val b.
+Proof. exact mul_spec. Qed.
+Theorem C15_mul_low : forall a b, wf a -> wf b -> length a = length b ->
+  wf (mul_low a b) /\ length (mul_low a b) = length a /\
+  val (mul_low a b) = (val a * val b) mod Wn (length a).
+Proof. exact mul_low_spec. Qed.
+Theorem C15_mul_high : forall a b, wf a -> wf b -> length a = length b ->
+  wf (mul_high a b) /\ length (mul_high a b) = length a /\
+  val (mul_high a b) = (val a * val b) / Wn (length a).
+Proof. exact mul_high_spec. Qed.
+Theorem C15_mul_low_eq_mul : forall a b, wf a -> wf b -> length a = length b ->
+  mul_low a b = fst (mul a b).
+Proof. exact mul_low_eq_mul. Qed.
+
+(* ---------- bits and bytes (BitsProofs.v) ---------- *)
+Theorem C15_num_bits : forall a, wf a ->
+  num_bits a = (if val a =? 0 then 0 else Z.log2 (val a) + 1).
+Proof. exact num_bits_spec. Qed.
+Theorem C15_get_bit : forall a i, wf a -> 0 <= i -> get_bit a i = Z.testbit (val a) i.
+Proof. exact get_bit_spec. Qed.
+Theorem C15_get_bit_beyond : forall a i, 64 * Z.of_nat (length a) <= i -> get_bit a i = false.
+Proof. exact get_bit_beyond. Qed.
+(* dval k l = sum l_i 2^(k i): little-endian value of a digit string in base 2^k *)
+Theorem C15_to_bits_le : forall a, wf a ->
+  length (to_bits_le a) = (64 * length a)%nat /\ Forall is_bit (to_bits_le a) /\
+  dval 1 (to_bits_le a) = val a /\
+  forall i, (i < 64 * length a)%nat -> nth i (to_bits_le a) 0 = Z.b2z (Z.testbit (val a) (Z.of_nat i)).
+Proof. exact to_bits_le_spec. Qed.
+(* bits beyond 64N are silently dropped, as coded *)
+Theorem C15_from_bits_le : forall N bits, Forall is_bit bits ->
+  wf (from_bits_le N bits) /\ length (from_bits_le N bits) = N /\
+  val (from_bits_le N bits) = dval 1 bits mod Wn N.
+Proof. exact from_bits_le_spec. Qed.
+Theorem C15_from_bits_be : forall N bits, Forall is_bit bits ->
+  wf (from_bits_be N bits) /\ length (from_bits_be N bits) = N /\
+  val (from_bits_be N bits) = dval 1 (rev bits) mod Wn N.
+Proof. exact from_bits_be_spec. Qed.
+Theorem C15_bits_le_roundtrip : forall a, wf a -> from_bits_le (length a) (to_bits_le a) = a.
+Proof. exact bits_le_roundtrip. Qed.
+Theorem C15_bits_be_roundtrip : forall a, wf a -> from_bits_be (length a) (to_bits_be a) = a.
+Proof. exact bits_be_roundtrip. Qed.
+Theorem C15_bits_le_roundtrip' : forall N bits, Forall is_bit bits -> length bits = (64 * N)%nat ->
+  to_bits_le (from_bits_le N bits) = bits.
+Proof. exact bits_le_roundtrip'. Qed.
+Theorem C15_bits_be_roundtrip' : forall N bits, Forall is_bit bits -> length bits = (64 * N)%nat ->
+  to_bits_be (from_bits_be N bits) = bits.
+Proof. exact bits_be_roundtrip'. Qed.
+Theorem C15_to_bytes_le : forall a, wf a ->
+  length (to_bytes_le a) = (8 * length a)%nat /\
+  Forall (fun d => 0 <= d < 256) (to_bytes_le a) /\ dval 8 (to_bytes_le a) = val a.
+Proof. exact to_bytes_le_spec. Qed.
+Theorem C15_to_bytes_be : forall a, wf a ->
+  length (to_bytes_be a) = (8 * length a)%nat /\
+  Forall (fun d => 0 <= d < 256) (to_bytes_be a) /\ dval 8 (rev (to_bytes_be a)) = val a.
+Proof. exact to_bytes_be_spec. Qed.
+
+(* ---------- signed-digit recodings (RecodeProofs.v) ----------
+   deval ds = sum d_i 2^i; digit_ok w d: d = 0 or d odd with |d| < 2^(w-1).
+   No side condition on the value: the carry out of `+ |d|` re-enters after the halving. *)
+Theorem C15_find_wnaf : forall a w, wf a -> 2 <= w < 64 ->
+  exists ds, find_wnaf a w = WnafDigits ds /\
+    deval ds = val a /\
+    Forall (digit_ok w) ds /\
+    (forall i k, (0 < k <= Z.to_nat (w - 1))%nat -> nth i ds 0 <> 0 -> nth (i + k) ds 0 = 0) /\
+    (ds = [] \/ 0 < last ds 0) /\
+    (length ds <= 64 * length a + 1)%nat.
+Proof. exact find_wnaf_spec. Qed.
+Theorem C15_find_wnaf_bad_window : forall a w, ~ (2 <= w < 64) -> find_wnaf a w = WnafNone.
+Proof. exact find_wnaf_bad_window. Qed.
+Theorem C15_find_naf : forall a, wf a ->
+  exists ds, find_naf a = Some ds /\
+    deval ds = val a /\
+    Forall naf_digit ds /\
+    (forall i, nth i ds 0 <> 0 -> nth (i + 1) ds 0 = 0) /\
+    (ds = [] \/ last ds 0 = 1) /\
+    (length ds <= 64 * length a + 1)%nat.
+Proof. exact find_naf_spec. Qed.
+Theorem C15_find_relaxed_naf : forall a, wf a ->
+  exists ds naf, find_naf a = Some naf /\ find_relaxed_naf a = Some ds /\
+    deval ds = val a /\
+    Forall naf_digit ds /\
+    (length ds <= length naf)%nat.
+Proof. exact find_relaxed_naf_spec. Qed.
+Theorem C15_is_odd : forall e, is_odd e = (val e mod 2 =? 1).
+Proof. exact is_odd_spec. Qed.
+Theorem C15_signed_mod_reduction : forall n w, 0 <= n -> 1 <= w ->
+  let z := signed_mod_reduction n (2 ^ w) in
+  (exists q, n - z = 2 ^ w * q) /\ - 2 ^ (w - 1) <= z < 2 ^ (w - 1) /\ (0 <= z -> z <= n) /\
+  (z < 0 -> - z <= 2 ^ (w - 1)).
+Proof. exact smr_spec. Qed.
+
+(* ---------- const helpers (ConstProofs.v) ---------- *)
+(* the long-division loop of const_modulo!: never hits its assertion, returns the remainder;
+   bitsum bit i = value of the low i bits of the dividend *)
+Theorem C15_const_modulo_loop : forall bit i rem d, wf rem -> wf d -> length rem = length d ->
+  val rem < val d ->
+  exists r, const_modulo_loop bit i rem d = Some r /\ wf r /\ length r = length d /\
+    val r = (val rem * 2 ^ Z.of_nat i + bitsum bit i) mod val d.
+Proof. exact const_modulo_loop_spec. Qed.
+Theorem C15_montgomery_r : forall m, wf m -> val m <> 0 ->
+  exists r, montgomery_r m = Some r /\ wf r /\ length r = length m /\
+    val r = Wn (length m) mod val m.
+Proof. exact montgomery_r_spec. Qed.
+Theorem C15_montgomery_r2 : forall m, wf m -> val m <> 0 ->
+  exists r, montgomery_r2 m = Some r /\ wf r /\ length r = length m /\
+    val r = (Wn (length m) * Wn (length m)) mod val m.
+Proof. exact montgomery_r2_spec. Qed.
+Theorem C15_two_adic : forall a, wf a -> val a mod 2 = 1 -> 1 < val a ->
+  exists s t, two_adic a = Some (s, t) /\ wf t /\ length t = length a /\
+    0 <= s /\ val a - 1 = 2 ^ s * val t /\ val t mod 2 = 1.
+Proof. exact two_adic_spec. Qed.
+Theorem C15_divide_by_2_round_down : forall a, wf a ->
+  wf (divide_by_2_round_down a) /\ length (divide_by_2_round_down a) = length a /\
+  val (divide_by_2_round_down a) = val a / 2.
+Proof. exact divide_by_2_round_down_spec. Qed.
+Theorem C15_mod_4 : forall a, wf a -> mod_4 a = val a mod 4.
+Proof. exact mod_4_spec. Qed.
+
+(* ---------- BigUint / decimal conversions (DecimalProofs.v) ---------- *)
+Theorem C15_try_from_biguint : forall N v, 0 <= v -> (0 < N)%nat ->
+  (v < Wn N -> exists a, try_from_biguint N v = Some a /\ wf a /\ length a = N /\ val a = v) /\
+  (Wn N <= v -> try_from_biguint N v = None).
+Proof. exact try_from_biguint_spec. Qed.
+Theorem C15_display : forall a, wf a ->
+  Forall is_digit (display a) /\ display a <> [] /\ parse_decimal (display a) = Some (val a).
+Proof. exact display_spec. Qed.
+Theorem C15_decimal_roundtrip : forall a, wf a -> a <> [] -> from_str (length a) (display a) = Some a.
+Proof. exact decimal_roundtrip. Qed.
+Theorem C15_from_str_value : forall N s v, (0 < N)%nat -> parse_decimal s = Some v -> 0 <= v ->
+  (v < Wn N -> exists a, from_str N s = Some a /\ wf a /\ length a = N /\ val a = v) /\
+  (Wn N <= v -> from_str N s = None).
+Proof. exact from_str_value. Qed.
+
+(* ---------- bitwise operators (BitwiseProofs.v) ---------- *)
+Theorem C15_bitand : forall a b, wf a -> wf b -> length a = length b ->
+  wf (map2 Z.land a b) /\ length (map2 Z.land a b) = length a /\
+  val (map2 Z.land a b) = Z.land (val a) (val b).
+Proof. exact bitand_spec. Qed.
+Theorem C15_bitor : forall a b, wf a -> wf b -> length a = length b ->
+  wf (map2 Z.lor a b) /\ length (map2 Z.lor a b) = length a /\
+  val (map2 Z.lor a b) = Z.lor (val a) (val b).
+Proof. exact bitor_spec. Qed.
+Theorem C15_bitxor : forall a b, wf a -> wf b -> length a = length b ->
+  wf (map2 Z.lxor a b) /\ length (map2 Z.lxor a b) = length a /\
+  val (map2 Z.lxor a b) = Z.lxor (val a) (val b).
+Proof. exact bitxor_spec. Qed.
+Theorem C15_bitnot : forall a, wf a ->
+  wf (map not64 a) /\ length (map not64 a) = length a /\
+  val (map not64 a) = Wn (length a) - 1 - val a.
+Proof. exact bitnot_spec. Qed.
+
+(* ---------- order, parity, const_num_bits, zero-skipping bit iterators (MiscProofs.v) ---------- *)
+Theorem C15_cmp_eq_iff : forall a b, wf a -> wf b -> length a = length b ->
+  (cmp a b = Eq <-> a = b).
+Proof. exact cmp_eq_iff. Qed.
+Theorem C15_cmp_antisym : forall a b, wf a -> wf b -> length a = length b ->
+  cmp b a = CompOpp (cmp a b).
+Proof. exact cmp_antisym. Qed.
+Theorem C15_cmp_lt_trans : forall a b c, wf a -> wf b -> wf c -> length a = length b -> length b = length c ->
+  cmp a b = Lt -> cmp b c = Lt -> cmp a c = Lt.
+Proof. exact cmp_lt_trans. Qed.
+Theorem C15_is_even : forall a, is_even a = (val a mod 2 =? 0).
+Proof. exact is_even_spec. Qed.
+(* const_num_bits inspects the top limb only: it is the bit length when that limb is non-zero *)
+Theorem C15_const_num_bits : forall a, wf a -> a <> [] -> last a 0 <> 0 ->
+  const_num_bits a = num_bits a /\ const_num_bits a = bit_length (val a).
+Proof. exact const_num_bits_spec. Qed.
+Theorem C15_bits_le_ntz : forall a, wf a ->
+  Z.of_nat (length (bits_le_ntz a)) = num_bits a /\ Forall is_bit (bits_le_ntz a) /\
+  dval 1 (bits_le_ntz a) = val a.
+Proof. exact bits_le_ntz_spec. Qed.
+Theorem C15_bits_be_nlz : forall a, wf a -> bits_be_nlz a = rev (bits_le_ntz a).
+Proof. exact bits_be_nlz_spec. Qed.
+
+(* ---------- non-vacuity: concrete inputs satisfying the hypotheses ---------- *)
+Example C15_mul2_example : mul2 [W64 - 1; W64 - 1] = ([W64 - 2; W64 - 1], true).
+Proof. vm_compute. reflexivity. Qed.
+Example C15_div2_example : div2 [1; 1] = [9223372036854775808; 0].
+Proof. vm_compute. reflexivity. Qed.
+Example C15_shl_example : shl [W64 - 1; 1] 65 = [0; W64 - 2] /\ shl [5; 7] 128 = [0; 0] /\ shl [5; 7] 64 = [0; 5].
+Proof. vm_compute. repeat split. Qed.
+Example C15_shr_example : shr [W64 - 1; 3] 65 = [1; 0] /\ shr [5; 7] 128 = [0; 0] /\ shr [5; 7] 64 = [7; 0].
+Proof. vm_compute. repeat split. Qed.
+Example C15_mul_example :
+  mul [W64 - 1; W64 - 1] [W64 - 1; W64 - 1] = ([1; 0], [W64 - 2; W64 - 1]) /\
+  mul_low [W64 - 1; W64 - 1] [W64 - 1; W64 - 1] = [1; 0] /\
+  mul_high [W64 - 1; W64 - 1] [W64 - 1; W64 - 1] = [W64 - 2; W64 - 1].
+Proof. vm_compute. repeat split. Qed.
+Example C15_bits_example : num_bits [0; 1] = 65 /\ get_bit [0; 1] 64 = true /\ get_bit [0; 1] 128 = false /\
+  from_bits_le 1 (to_bits_le [11]) = [11] /\ to_bytes_be [258] = [0; 0; 0; 0; 0; 0; 1; 2].
+Proof. vm_compute. repeat split. Qed.
+(* the value 2^64 - 1 (within 2^(w-1) of the top of the range): the carry re-enters *)
+Example C15_find_wnaf_example :
+  find_wnaf [W64 - 1] 2 = WnafDigits (-1 :: repeat 0 63 ++ [1]) /\
+  deval (-1 :: repeat 0 63 ++ [1]) = val [W64 - 1] /\
+  find_wnaf [W64 - 1] 4 = WnafDigits (-1 :: repeat 0 63 ++ [1]) /\
+  find_wnaf [183] 3 = WnafDigits [-1; 0; 0; -1; 0; 0; 3].
+Proof. vm_compute. repeat split. Qed.
+Example C15_find_naf_example :
+  find_naf [7] = Some [-1; 0; 0; 1] /\ find_relaxed_naf [7] = Some [-1; 0; 0; 1] /\
+  find_naf [3] = Some [-1; 0; 1] /\ find_relaxed_naf [3] = Some [1; 1] /\
+  find_naf [0] = Some [] /\ find_relaxed_naf [0] = Some [].
+Proof. vm_compute. repeat split. Qed.
+Example C15_misc_example :
+  cmp [5; 7] [6; 6] = Gt /\ const_num_bits [0; 5] = 67 /\ const_num_bits [5; 0] = 64 /\ num_bits [5; 0] = 3 /\
+  bits_be_nlz [6] = [1; 1; 0] /\ bits_le_ntz [6] = [0; 1; 1].
+Proof. vm_compute. repeat split. Qed.
+Example C15_montgomery_example :
+  montgomery_r [5] = Some [1] /\ montgomery_r2 [7] = Some [4] /\
+  montgomery_r [W64 - 1; W64 - 1] = Some [1; 0] /\ two_adic [97] = Some (5, [3]).
+Proof. vm_compute. repeat split. Qed.
+(* "18446744073709551615" and "18446744073709551616" for one limb *)
+Example C15_decimal_example :
+  from_str 1 [49;56;52;52;54;55;52;52;48;55;51;55;48;57;53;53;49;54;49;53] = Some [W64 - 1] /\
+  from_str 1 [49;56;52;52;54;55;52;52;48;55;51;55;48;57;53;53;49;54;49;54] = None /\
+  display [W64 - 1] = [49;56;52;52;54;55;52;52;48;55;51;55;48;57;53;53;49;54;49;53].
+Proof. vm_compute. repeat split. Qed.
